@@ -169,7 +169,7 @@ class _ZkProve(_Backend):
 
     def configs(self, tier):
         shapes = [dict(npub=0, npriv=0, cons=[]),
-                  dict(npub=1, npriv=2, cons=[[(-1,), (-2,), (1, 0)]])]
+                  dict(npub=1, npriv=2, cons=[[(-1,), (-2,), (1, 0)], [(-1,), (-2,), (0,)]])]     # second: C is a bare constant with any coefficient
         if tier != "quick":
             shapes.append(dict(npub=2, npriv=2, cons=[[(-1, 1), (-2,), (2, 0)], [(), (0,), (-1,)]]))
         return [dict(shape=repr(s)) for s in shapes]
